@@ -276,25 +276,37 @@ func TestC18(t *testing.T) {
 				ev.Violation(rt, "C18", rp, "%d attempts in flight at %v, MaxConcurrency is %d", cur, p.t, effMax)
 			}
 		}
-		// 3. stagger
+		// 3. stagger: an attempt may start less than ConcurrencyDelay after the previous one only
+		// if a failure happened since the previous start, and every failure releases one attempt
+		var fails []time.Duration
+		for _, f := range finishes {
+			if !f.OK {
+				fails = append(fails, f.T)
+			}
+		}
+		sort.Slice(fails, func(i, j int) bool { return fails[i] < fails[j] })
+		used := make([]bool, len(fails))
 		for k := 1; k < len(starts); k++ {
 			a, b := starts[k-1], starts[k]
-			if b.T >= a.T+effDelay {
+			if b.T >= a.T+effDelay || returnedBefore(retAt, returned, b.T) {
+				continue
+			}
+			errBetween := false
+			for i := a.Target + 1; i < b.Target; i++ {
+				errBetween = errBetween || bs[i].ErrTarget // its (unobservable) failure releases the next target
+			}
+			if errBetween {
 				continue
 			}
 			excused := false
-			for _, f := range finishes {
-				if !f.OK && f.T <= b.T {
-					excused = true // an earlier failure releases the next attempt
+			for i, ft := range fails {
+				if !used[i] && ft >= a.T && ft <= b.T {
+					used[i], excused = true, true
+					break
 				}
 			}
-			for i := 0; i < b.Target; i++ {
-				if bs[i].ErrTarget {
-					excused = true // a resolve error counts as a failure
-				}
-			}
-			if !returnedBefore(retAt, returned, b.T) && !excused {
-				ev.Violation(rt, "C18", rp, "attempt %d started at %v, only %v after attempt %d, without an earlier failure (ConcurrencyDelay %v)", b.Target, b.T, b.T-a.T, a.Target, effDelay)
+			if !excused {
+				ev.Violation(rt, "C18", rp, "attempt %d started at %v, only %v after attempt %d, without a failure in between that had not already released another attempt (ConcurrencyDelay %v)", b.Target, b.T, b.T-a.T, a.Target, effDelay)
 			}
 		}
 		// 4. per-attempt deadline
